@@ -35,3 +35,10 @@ CLAIMED['C18'] = dict(
   text='Held on every schedule executed: all CA fault sequences of length <= 4 over {ok, sign error, root error} x {immediate, delayed} (exhaustive stratum), hundreds/thousands of PRNG interleavings of GenerateSecret bursts, gate releases, renewal firings (current and stale), trust-bundle updates and root changes; per observation: key/cert pair match, roots contained, exactly one CSRSign per attempt and none overlapping, exactly one renewal per certificate with delay bounded by expiry and grace, failure not sticky, root change announced exactly once; rotateTime swept over ratio x jitter grids.',
   note='Trusted: the fake CA and virtual queue (harness code), the reference model, one-sided time bounds computed from timestamps taken before the call. Not driven: sdsservice push delivery, citadel client retries, real delay queue timing. Three defects found by this check were fixed (see known-findings.txt).',
 )
+
+CLAIMED['C19'] = dict(
+  category='exploration',
+  technique='runtime monitoring: the real injection webhook (inject.NewWebhook behind its HTTP mux, config and templates rendered from the in-repo charts) is driven with AdmissionReview requests; exhaustive 1200-row decision table against an independent reference table function (each row three times: determinism, non-interference), plus inject-twice differential and pod-preservation diff over repo fixtures and PRNG pods',
+  text='Decision clause: exhaustive over hostNetwork x namespace x label x annotation x never/always selectors x policy (1200 rows, x8 installation variants in thorough), every row equal to the reference precedence table and stable under re-submission and unrelated metadata. Idempotency/preservation: hundreds (quick) to thousands (thorough) of pods under the shipped templates that render for pods (sidecar, gateway, grpc-agent, grpc-simple); user containers, init containers and volumes keep order, image, command, args, ports. Re-invocation is NOT idempotent for five trigger families listed as known findings; any other difference between first and second injection is still a violation.',
+  note='Trusted: the reference decision table (our reading of the documented precedence; an illegal policy value disables injection as documented by the injector), JSON-patch application, canonical JSON comparison. Repo TEST-only templates (custom, spire) are excluded; templates needing a ServiceAccount context (waypoint, kube-gateway, agentgateway) do not render for pods and are not covered. AdmissionReview v1 only; OpenShift and node auto-detection branches not driven.',
+)
